@@ -25,6 +25,60 @@ def mk_dataset(raw, name=None):
     return d
 
 
+def mk_ranking_form(raw, form):
+    """the same ranking given to the constructor in another valid form: a one-shot generator of sets, a map object, a
+    reversed iterator of the reversed list, a tuple of frozensets, a list of lists"""
+    if form == "generator":
+        return ck.Ranking(set(b) for b in raw)
+    if form == "map":
+        return ck.Ranking(map(set, raw))
+    if form == "reversed":
+        return ck.Ranking(reversed([set(b) for b in reversed(raw)]))
+    if form == "tuple-frozensets":
+        return ck.Ranking(tuple(frozenset(b) for b in raw))
+    if form == "lists":
+        return ck.Ranking([list(b) for b in raw])
+    return mk_ranking(raw)
+
+
+FORMS = ["generator", "map", "reversed", "tuple-frozensets", "lists"]
+
+
+def mk_dataset_forms(raw, forms):
+    """forms: one form per ranking (see mk_ranking_form)"""
+    return ck.Dataset([mk_ranking_form(r, f) for r, f in zip(raw, forms)])
+
+
+def pickled_elsewhere(raws, hashseed, repo):
+    """Dataset objects built from the raw datasets and pickled by ANOTHER interpreter (its own PYTHONHASHSEED), loaded
+    here: objects saved by an earlier run or sent to a spawned worker.  Returns a list of Dataset (or None where the other
+    interpreter could not build one)."""
+    import json
+    import os
+    import pickle
+    import subprocess
+    import sys
+    import tempfile
+    fd, path = tempfile.mkstemp(suffix=".pkl")
+    os.close(fd)
+    code = ("import json, pickle, sys\nimport corankco as ck\nraws = json.loads(sys.stdin.read())\nout = []\n"
+            "for raw in raws:\n    try:\n        out.append(ck.Dataset([ck.Ranking([set(b) for b in r]) for r in raw]))\n"
+            "    except Exception:\n        out.append(None)\n"
+            "pickle.dump(out, open(sys.argv[1], 'wb'))\n")
+    env = dict(os.environ, PYTHONHASHSEED=str(hashseed), PYTHONPATH=repo + os.pathsep + os.environ.get("PYTHONPATH", ""))
+    env.pop("NUMBA_DISABLE_JIT", None)
+    try:
+        r = subprocess.run([sys.executable, "-c", code, path], input=json.dumps(raws), text=True, env=env,
+                           stdout=subprocess.PIPE, stderr=subprocess.PIPE, timeout=300)
+        if r.returncode != 0:
+            return None
+        with open(path, "rb") as f:
+            return pickle.load(f)
+    finally:
+        if os.path.exists(path):
+            os.remove(path)
+
+
 def mk_scheme(raw):
     return ck.ScoringScheme([list(raw[0]), list(raw[1])])
 
